@@ -5,7 +5,9 @@ package main
 
 import (
 	"bytes"
+	"encoding/binary"
 	"fmt"
+	"hash/crc32"
 	"io"
 	"net"
 	"strconv"
@@ -52,12 +54,56 @@ func b01(b bool) int {
 	return 0
 }
 
+// realFrame lets the implementation write a frame; nil if it fails.
 func realFrame(method uint16, payload []byte, enc bool) []byte {
 	c := newBufConn(nil)
-	if err := hooks.WriteMessage(c, method, 0, payload, enc); err != nil {
-		panic(err)
+	if p := vh.Catch(func() { must(hooks.WriteMessage(c, method, 0, payload, enc)) }); p != "" {
+		return nil
 	}
 	return append([]byte{}, c.wr.Bytes()...)
+}
+
+// crcPatch returns the 4 bytes S with crc32.ChecksumIEEE(prefix ++ S) = target.
+// Four byte steps equal xoring the little-endian word of the bytes into the
+// register followed by four zero-byte steps; a zero-byte step
+// s' = T[s&0xff] ^ (s>>8) is undone through the top byte of s', which
+// identifies the table index.
+func crcPatch(prefix []byte, target uint32) []byte {
+	tab := crc32.IEEETable
+	var rev [256]byte
+	for i := 0; i < 256; i++ {
+		rev[tab[i]>>24] = byte(i)
+	}
+	v := ^target // register value that yields the wanted checksum
+	for i := 0; i < 4; i++ {
+		idx := rev[v>>24]
+		v = (v^tab[idx])<<8 | uint32(idx)
+	}
+	reg := ^crc32.ChecksumIEEE(prefix)
+	s := make([]byte, 4)
+	binary.LittleEndian.PutUint32(s, v^reg)
+	if crc32.ChecksumIEEE(append(append([]byte{}, prefix...), s...)) != target {
+		panic("crcPatch: self-check failed")
+	}
+	return s
+}
+
+// zeroCRCPayload: a payload of n >= 4 bytes whose CRC-32 is target.
+func forgedPayload(r *vh.Rand, n int, target uint32) []byte {
+	p := r.Bytes(n - 4)
+	return append(p, crcPatch(p, target)...)
+}
+
+// zeroHeaderCRCFrame builds a payload such that the header writeMessage
+// produces for it has header checksum 0: the header's last field (the payload
+// crc X) is chosen as the patch of the first 14 header bytes, then the payload
+// is forged to have crc X.
+func zeroHeaderCRCPayload(r *vh.Rand, method uint16, n int) []byte {
+	h := make([]byte, 14)
+	binary.BigEndian.PutUint16(h, method)
+	binary.BigEndian.PutUint64(h[2:], uint64(n))
+	x := binary.BigEndian.Uint32(crcPatch(h, 0))
+	return forgedPayload(r, n, x)
 }
 
 // genFrames writes the frame cases; next is the first free case id.
@@ -78,7 +124,10 @@ func genFrames(r *vh.Rand, w *vh.LineWriter, next int, tier string) int {
 	}
 	for i := 0; i < nh; i++ {
 		m := methods[r.Intn(6)]
-		b := hooks.EncodeHeader(m, r.BiasedU64(), uint32(r.U64()))
+		var b []byte
+		if p := vh.Catch(func() { b = hooks.EncodeHeader(m, r.BiasedU64(), uint32(r.U64())) }); p != "" || len(b) == 0 {
+			b = r.Bytes(18)
+		}
 		switch r.Intn(5) {
 		case 0:
 		case 1:
@@ -102,19 +151,49 @@ func genFrames(r *vh.Rand, w *vh.LineWriter, next int, tier string) int {
 	}
 	// sample frames: every single-bit flip, every truncation point, bursts
 	lens := []int{1, 2, 5, 17, 33, 64, 100, 150}
-	for k := 0; k < nsamples; k++ {
+	// the last nzero samples have checksum 0: payload crc field = 0 (three of
+	// four) or header crc field = 0 (one of four). A reader that treats a zero
+	// crc field as "not checksummed" delivers corruptions of exactly these.
+	nzero := 6
+	if tier == "thorough" {
+		nzero = 40
+	}
+	for k := 0; k < nsamples+nzero; k++ {
 		n := lens[k%len(lens)]
 		if k >= len(lens) {
 			n = 1 + r.Intn(200)
 		}
 		enc := k%4 == 3
 		method := []uint16{100, 200}[k%2]
-		f := realFrame(method, r.Bytes(n), enc)
+		payload := r.Bytes(n)
+		if k >= nsamples {
+			enc = false
+			n = []int{4, 5, 12, 40, 90, 8}[(k-nsamples)%6]
+			if (k-nsamples)%4 == 3 {
+				payload = zeroHeaderCRCPayload(r, method, n)
+			} else {
+				payload = forgedPayload(r, n, 0)
+			}
+		}
+		f := realFrame(method, payload, enc)
+		if f == nil {
+			continue
+		}
+		if k >= nsamples {
+			hz := binary.BigEndian.Uint32(f[12:16]) == 0
+			pz := binary.BigEndian.Uint32(f[16:20]) == 0
+			if !hz && !pz {
+				panic("forged frame has no zero checksum field")
+			}
+		}
 		tail := []byte{}
 		if k%3 == 1 {
 			tail = r.Bytes(1 + r.Intn(5))
 		} else if k%3 == 2 {
 			tail = realFrame(200, r.Bytes(3), enc)
+		}
+		if k >= nsamples {
+			bursts = 120
 		}
 		s := append(append([]byte{}, f...), tail...)
 		rb := recvBufChoices[r.Intn(len(recvBufChoices))]
@@ -150,7 +229,10 @@ func genFrames(r *vh.Rand, w *vh.LineWriter, next int, tier string) int {
 		// header crc, payload does not fit
 		for j := 0; j < 6; j++ {
 			sz := uint64(r.Intn(3 * n))
-			h := hooks.EncodeHeader(methods[r.Intn(8)], sz, uint32(r.U64()))
+			var h []byte
+			if p := vh.Catch(func() { h = hooks.EncodeHeader(methods[r.Intn(8)], sz, uint32(r.U64())) }); p != "" {
+				continue
+			}
 			m := append(append([]byte{0xAE, 0x7D}, h...), f[20:]...)
 			emit("FRAME %d %d forged %s", b01(enc), rb, vh.Hex(m))
 		}
@@ -161,7 +243,9 @@ func genFrames(r *vh.Rand, w *vh.LineWriter, next int, tier string) int {
 	emit("FRAME 0 64 other -")
 	emit("FRAME 0 64 other ae7d")
 	emit("FRAME 0 64 other ae")
-	emit("FRAME 0 64 other 7dae%s", vh.Hex(realFrame(100, []byte{1, 2, 3}, false)[2:]))
+	if f := realFrame(100, []byte{1, 2, 3}, false); f != nil {
+		emit("FRAME 0 64 other 7dae%s", vh.Hex(f[2:]))
+	}
 	return next
 }
 
